@@ -579,6 +579,52 @@ pub fn run(env: &Env, run: &Run) -> (Stats, Coverage) {
             st.merge(x);
         }
     }
+    // (b4'') the whole-label rules (the two digit rules, katakana middle dot) on labels of a little
+    // over 64 KiB and 128 KiB: the rule's own code point at one end, the code point that decides
+    // the answer at the other, the padding length such that the far character starts at every
+    // byte phase -5..+5 around a multiple of 2^16 (scans done block by block, offsets kept in 16 bits)
+    {
+        let cases: [(CtxRule, u32, u32); 4] = [(CtxRule::ArabicIndic, 0x660, 0x6F0), (CtxRule::ExtArabicIndic, 0x6F0, 0x660), (CtxRule::KatakanaDot, 0x30FB, 0x30A2), (CtxRule::ArabicIndic, 0x660, 0x661)];
+        let mut labels: Vec<(CtxRule, Vec<u32>, usize)> = Vec::new();
+        for (rule, own, other) in cases {
+            let own_len = char::from_u32(own).unwrap().len_utf8();
+            for base in [1usize << 16, 1 << 17] {
+                for d in 0..=10usize {
+                    let target = base + d - 5; // byte index at which `other` starts (own first)
+                    let pad = target - own_len;
+                    let mut l = vec![own];
+                    l.extend(std::iter::repeat(0x61).take(pad));
+                    l.push(other);
+                    labels.push((rule, l, 0));
+                    // the other order: `other` first, padding, own code point starting at `target`
+                    let other_len = char::from_u32(other).unwrap().len_utf8();
+                    let mut l2 = vec![other];
+                    l2.extend(std::iter::repeat(0x61).take(target - other_len));
+                    l2.push(own);
+                    let pos = l2.len() - 1;
+                    labels.push((rule, l2, pos));
+                }
+            }
+        }
+        use rayon::prelude::*;
+        let shards: Vec<Stats> = labels
+            .par_iter()
+            .map(|(rule, l, pos)| {
+                let mut st = Stats::default();
+                let s = from_cps(l);
+                st.states += 1;
+                st.transitions += 1;
+                crate::watch::with_allowance(60, || {
+                    check_rule(env, *rule, l, &s, *pos, &mut st);
+                });
+                st.count("out:64KiB-label");
+                st
+            })
+            .collect();
+        for x in shards {
+            st.merge(x);
+        }
+    }
     // (b5) long runs of transparent characters on both sides of ZWNJ
     {
         let ends: [u32; 6] = [D, L, R, 0x61, VIRAMA, T];
